@@ -66,7 +66,7 @@ def make_arc(svg, c):
     return arc, ref, start, end
 
 
-VIA = ["direct", "mirrored", "endpoint", "endpoint-negrx", "endpoint-negry"]
+VIA = ["direct", "mirrored", "endpoint", "endpoint-negrx", "endpoint-negry", "half-turned"]
 
 
 def make_arc_via(svg, c):
@@ -75,6 +75,14 @@ def make_arc_via(svg, c):
     via = c.get("via", "direct")
     if via == "direct":
         return make_arc(svg, c)
+    if via == "half-turned":
+        # the same arc described with both radius points reflected through the centre: the x-axis rotation is exactly half
+        # a turn more (for an axis-aligned ellipse the first radius point lies EXACTLY left of the centre)
+        arc0, ref, start, end = make_arc(svg, c)
+        px, py = ref.at_angle(0.0), ref.at_angle(math.pi / 2)
+        arc = svg.Arc(start, end, (c["cx"], c["cy"]), (2 * c["cx"] - px[0], 2 * c["cy"] - px[1]),
+                      (2 * c["cx"] - py[0], 2 * c["cy"] - py[1]), c["dth"])
+        return arc, ref, start, end
     if via.startswith("endpoint"):
         # the same arc through the SVG endpoint constructor (start, rx, ry, rotation, large-arc, sweep, end), optionally with
         # one radius written negative (its absolute value counts); only for extents the endpoint form can express
@@ -155,7 +163,7 @@ class Arcs(SubCheck):
 
     def __init__(self, svg, tier):
         self.svg = svg
-        via = VIA if tier == "thorough" else ["direct", "mirrored", "endpoint-negrx"]
+        via = VIA if tier == "thorough" else ["direct", "mirrored", "endpoint-negrx", "half-turned"]
         self.p = Product(RATIO, ROT, TH0, EXT, [1, -1], MAGS if tier == "thorough" else [1.0, 1e5], via)
         self.bounds = dict(ratios=RATIO, rotations=ROT, starts=len(TH0), extents=len(EXT), subdivisions=[str(n) for n in NSUB],
                            via=VIA)
